@@ -1,6 +1,7 @@
 package main
 
 import (
+	"strings"
 	"go/constant"
 	"go/token"
 	"go/types"
@@ -488,6 +489,12 @@ func mayBeNil(v ssa.Value, depth int) bool {
 			if n == "fmt.Errorf" || n == "errors.New" {
 				return false
 			}
+			if fname(f) == "common/errors.WithContext" && len(v.Call.Args) > 0 {
+				return mayBeNil(v.Call.Args[0], depth+1)
+			}
+			if neverNilError(f, depth+1) {
+				return false
+			}
 		}
 		return true
 	case *ssa.UnOp:
@@ -730,6 +737,46 @@ func stableCond(fn *ssa.Function, cond ssa.Value) bool {
 			walk(v.X, d+1)
 		case *ssa.Convert:
 			walk(v.X, d+1)
+		case *ssa.Call:
+			// pure comparison helpers on stable operands
+			n := calleeNameCommon(&v.Call)
+			if strings.HasSuffix(n, ".Equal") || strings.HasSuffix(n, ".IsZero") || strings.HasSuffix(n, ".IsEmpty") || strings.HasSuffix(n, ".CallerAddress") || strings.HasSuffix(n, ".TxSigner") {
+				for _, a := range v.Call.Args {
+					walk(a, d+1)
+				}
+				if v.Call.IsInvoke() {
+					ok = false
+				}
+			} else {
+				ok = false
+			}
+		case *ssa.IndexAddr:
+			walk(v.X, d+1)
+			walk(v.Index, d+1)
+		case *ssa.Index:
+			walk(v.X, d+1)
+		case *ssa.Extract:
+			if _, isNext := v.Tuple.(*ssa.Next); !isNext {
+				ok = false
+			}
+		case *ssa.Phi:
+			// loop induction variable (index of a range over a slice)
+			if v.Comment != "rangeindex" && !strings.HasPrefix(v.Comment, "rangeindex") {
+				for _, e := range v.Edges {
+					if _, isC := e.(*ssa.Const); !isC {
+						if b, isB := e.(*ssa.BinOp); !isB || b.X != ssa.Value(v) {
+							ok = false
+						}
+					}
+				}
+			}
+		case *ssa.Alloc:
+			// address of a spilled parameter copy
+			if sv := singleStore(v); sv != nil {
+				walk(sv, d+1)
+			} else {
+				ok = false
+			}
 		default:
 			ok = false
 		}
@@ -750,33 +797,123 @@ func stableCond(fn *ssa.Function, cond ssa.Value) bool {
 	return true
 }
 
-// correlatedCut cuts, for every stable condition known to hold at a, the
-// opposite edge of every other If in the function testing the same condition
-// (removes paths that are infeasible because the same unmodified field is
-// tested twice).
+// sameValue: structural equality of two SSA values: identical instruction, or
+// the same projection/load/pure comparison applied to structurally equal
+// operands. Calls are equal only if they are the same instruction, except
+// pure comparison helpers (Equal, IsZero, ...), which are compared by operands.
+func sameValue(a, b ssa.Value, d int) bool {
+	if a == b {
+		return true
+	}
+	if d > 12 || a == nil || b == nil {
+		return false
+	}
+	switch x := a.(type) {
+	case *ssa.Const:
+		y, ok := b.(*ssa.Const)
+		return ok && x.Value == y.Value && types.Identical(x.Type(), y.Type()) || ok && x.Value != nil && y.Value != nil && x.Value.ExactString() == y.Value.ExactString()
+	case *ssa.UnOp:
+		y, ok := b.(*ssa.UnOp)
+		return ok && x.Op == y.Op && sameValue(x.X, y.X, d+1)
+	case *ssa.BinOp:
+		y, ok := b.(*ssa.BinOp)
+		return ok && x.Op == y.Op && sameValue(x.X, y.X, d+1) && sameValue(x.Y, y.Y, d+1)
+	case *ssa.FieldAddr:
+		y, ok := b.(*ssa.FieldAddr)
+		return ok && x.Field == y.Field && sameValue(x.X, y.X, d+1)
+	case *ssa.Field:
+		y, ok := b.(*ssa.Field)
+		return ok && x.Field == y.Field && sameValue(x.X, y.X, d+1)
+	case *ssa.IndexAddr:
+		y, ok := b.(*ssa.IndexAddr)
+		return ok && sameValue(x.X, y.X, d+1) && sameValue(x.Index, y.Index, d+1)
+	case *ssa.Index:
+		y, ok := b.(*ssa.Index)
+		return ok && sameValue(x.X, y.X, d+1) && sameValue(x.Index, y.Index, d+1)
+	case *ssa.ChangeType:
+		y, ok := b.(*ssa.ChangeType)
+		return ok && sameValue(x.X, y.X, d+1)
+	case *ssa.Convert:
+		y, ok := b.(*ssa.Convert)
+		return ok && types.Identical(x.Type(), y.Type()) && sameValue(x.X, y.X, d+1)
+	case *ssa.Alloc:
+		y, ok := b.(*ssa.Alloc)
+		if !ok {
+			return false
+		}
+		sx, sy := singleStore(x), singleStore(y)
+		return sx != nil && sy != nil && sameValue(sx, sy, d+1)
+	case *ssa.Call:
+		y, ok := b.(*ssa.Call)
+		if !ok || x.Call.IsInvoke() || y.Call.IsInvoke() {
+			return false
+		}
+		n := calleeNameCommon(&x.Call)
+		if n != calleeNameCommon(&y.Call) || len(x.Call.Args) != len(y.Call.Args) {
+			return false
+		}
+		pure := false
+		for _, suf := range []string{".Equal", ".IsZero", ".IsEmpty", ".CallerAddress", ".TxSigner", ".Cmp"} {
+			if strings.HasSuffix(n, suf) {
+				pure = true
+			}
+		}
+		if !pure {
+			return false
+		}
+		for i := range x.Call.Args {
+			if !sameValue(x.Call.Args[i], y.Call.Args[i], d+1) {
+				return false
+			}
+		}
+		return true
+	}
+	return false
+}
+
+// correlatedCut cuts, for every condition known to hold at a, the opposite
+// edge of every other If in the function testing a structurally equal
+// condition (removes paths that are infeasible because the same unmodified
+// value is tested twice).
 func correlatedCut(a ssa.Instruction, cut *Cut) {
 	fn := a.Parent()
-	held := heldConds(a)
+	held := heldCondVals(a)
 	if len(held) == 0 {
 		return
 	}
 	for _, b := range fn.Blocks {
-		if len(b.Instrs) == 0 {
+		iff := lastIfOf(b)
+		if iff == nil {
 			continue
 		}
-		iff, ok := b.Instrs[len(b.Instrs)-1].(*ssa.If)
-		if !ok {
-			continue
+		for _, h := range held {
+			if h.Cond == iff.Cond {
+				continue
+			}
+			c1, p1 := stripNot(h.Cond, h.Pol)
+			c2, p2 := stripNot(iff.Cond, true)
+			if !sameValue(c1, c2, 0) {
+				continue
+			}
+			// iff.Cond == (c2 with polarity p2); held: c1 is p1. iff takes edge 0 iff c2==p2... cond true means c2 == p2
+			condTrue := p1 == p2
+			if condTrue {
+				cut.AddEdges(Edge{b, 1})
+			} else {
+				cut.AddEdges(Edge{b, 0})
+			}
 		}
-		pol, has := held[vstr(iff.Cond)]
-		if !has || !stableCond(fn, iff.Cond) {
-			continue
+	}
+}
+
+func stripNot(v ssa.Value, pol bool) (ssa.Value, bool) {
+	for {
+		u, ok := v.(*ssa.UnOp)
+		if !ok || u.Op != token.NOT {
+			return v, pol
 		}
-		if pol {
-			cut.AddEdges(Edge{b, 1})
-		} else {
-			cut.AddEdges(Edge{b, 0})
-		}
+		v = u.X
+		pol = !pol
 	}
 }
 
@@ -846,4 +983,35 @@ func allArgs(c ssa.CallInstruction) []ssa.Value {
 		return append([]ssa.Value{cc.Value}, cc.Args...)
 	}
 	return cc.Args
+}
+
+var neverNilMemo = map[*ssa.Function]int{} // 0 unknown, 1 never nil, 2 may be nil
+
+// neverNilError: every return of f carries a provably non-nil error.
+func neverNilError(f *ssa.Function, depth int) bool {
+	if f == nil || f.Blocks == nil || depth > 6 {
+		return false
+	}
+	switch neverNilMemo[f] {
+	case 1:
+		return true
+	case 2:
+		return false
+	}
+	neverNilMemo[f] = 2 // recursion guard
+	i := errResultIndex(f)
+	if i < 0 {
+		return false
+	}
+	rets := Returns(f)
+	if len(rets) == 0 {
+		return false
+	}
+	for _, r := range rets {
+		if mayBeNil(unspill(r.Results[i]), depth+1) {
+			return false
+		}
+	}
+	neverNilMemo[f] = 1
+	return true
 }
